@@ -23,7 +23,7 @@ BIN = os.path.join(WORK, "bin")
 HARNESS_SRC = os.path.join(VERIF, "go", "harness")
 EVID = os.path.join(VERIF, "evidence")
 REPLAYS = os.path.join(VERIF, "replays")
-KNOWN = os.path.join(VERIF, "KNOWN_FINDINGS.jsonl")
+KNOWN = os.path.join(VERIF, "KNOWN_FINDINGS.txt")
 
 GOENV = dict(os.environ)
 GOENV.update({"GOFLAGS": "-mod=mod", "GOPROXY": "off", "GOTOOLCHAIN": GOENV.get("GOTOOLCHAIN", "auto")})
@@ -178,8 +178,10 @@ def load_known(prop):
         return out
     for line in open(KNOWN):
         line = line.strip()
-        if not line or line.startswith("#"):
-            continue
+        if not line or line.startswith("#") or line.startswith("fixed:"):
+            continue  # a fixed entry suppresses nothing
+        if line.startswith("open:"):
+            line = line[5:].strip()
         e = json.loads(line)
         if e.get("property") == prop or prop in e.get("also", []):
             out.append(e)
